@@ -632,6 +632,111 @@ theorem unscale_scale_data (kind : PrecKind) (hk : kind ≠ .identity) (sqrtF : 
     u.lb.cnt = d0.lb.cnt ∧ u.lb.idx = d0.lb.idx ∧ u.ub.cnt = d0.ub.cnt ∧ u.ub.idx = d0.ub.idx :=
   unscaleData_of_scaled kind hk d0 _ _ (scaleData_scaled kind hk sqrtF cs d0 pre reuse scaleCost maxIter)
     (scaleData_invFull kind hk sqrtF cs hg d0 pre reuse scaleCost maxIter h)
+/-- all scalings are strictly positive -/
+structure Pos (pre : Precond K n p m) : Prop where
+  c : 0 < pre.c
+  dx : ∀ i : Fin n, 0 < pre.dx[i]
+  dy : ∀ i : Fin p, 0 < pre.dy[i]
+  dz : ∀ i : Fin m, 0 < pre.dz[i]
+  dlb : ∀ i : Fin n, 0 < pre.dlb[i]
+  dub : ∀ i : Fin n, 0 < pre.dub[i]
+
+/-- positive scaling limits and a `sqrt` that is positive on positive numbers (IEEE `sqrt`, and every `sqrt` mode of the
+    exact harness on the values it is applied to) -/
+structure PosConsts (cs : Consts K) (sqrtF : K → K) : Prop where
+  minPos : 0 < cs.minScaling
+  maxPos : 0 < cs.maxScaling
+  sqrtPos : ∀ x : K, 0 < x → 0 < sqrtF x
+
+theorem PosConsts.good {cs : Consts K} {sqrtF : K → K} (h : PosConsts cs sqrtF) : GoodConsts cs sqrtF :=
+  ⟨h.minPos, h.maxPos, fun x hx => ne_of_gt (h.sqrtPos x hx)⟩
+
+theorem fin_pos (cs : Consts K) (sqrtF : K → K) (hg : PosConsts cs sqrtF) (v : K) : 0 < 1 / sqrtF (limitScaling cs v) :=
+  one_div_pos.mpr (hg.sqrtPos _ (limitScaling_pos cs sqrtF hg.good v))
+
+theorem ruizBody_pos (kind : PrecKind) (sqrtF : K → K) (cs : Consts K) (hg : PosConsts cs sqrtF) (scaleCost : Bool)
+    (st : RuizState K n p m) (h : Pos st.pre) : Pos (ruizBody kind sqrtF cs scaleCost st).pre := by
+  have hf := fin_pos cs sqrtF hg
+  unfold ruizBody
+  cases scaleCost
+  · simp only [Bool.false_eq_true, if_false]
+    refine ⟨h.c, ?_, ?_, ?_, ?_, ?_⟩
+    · intro i; simp only [ofFn_get]; exact mul_pos (h.dx i) (hf _)
+    · intro i; simp only [ofFn_get]; exact mul_pos (h.dy i) (hf _)
+    · intro i; simp only [ofFn_get]; exact mul_pos (h.dz i) (hf _)
+    · intro i; simp only [headMap_get, ofFn_get]; split
+      · exact mul_pos (h.dlb i) (hf _)
+      · exact h.dlb i
+    · intro i; simp only [headMap_get, ofFn_get]; split
+      · exact mul_pos (h.dub i) (hf _)
+      · exact h.dub i
+  · simp only [if_true]
+    refine ⟨?_, ?_, ?_, ?_, ?_, ?_⟩
+    · exact mul_pos h.c (one_div_pos.mpr (limitScaling_pos cs sqrtF hg.good _))
+    · intro i; simp only [ofFn_get]; exact mul_pos (h.dx i) (hf _)
+    · intro i; simp only [ofFn_get]; exact mul_pos (h.dy i) (hf _)
+    · intro i; simp only [ofFn_get]; exact mul_pos (h.dz i) (hf _)
+    · intro i; simp only [headMap_get, ofFn_get]; split
+      · exact mul_pos (h.dlb i) (hf _)
+      · exact h.dlb i
+    · intro i; simp only [headMap_get, ofFn_get]; split
+      · exact mul_pos (h.dub i) (hf _)
+      · exact h.dub i
+
+theorem ruizLoop_pos (kind : PrecKind) (sqrtF : K → K) (cs : Consts K) (hg : PosConsts cs sqrtF) (scaleCost : Bool) :
+    ∀ (fuel : Nat) (st : RuizState K n p m), Pos st.pre → Pos (ruizLoop kind sqrtF cs scaleCost fuel st).pre := by
+  intro fuel
+  induction fuel with
+  | zero => intro st h; exact h
+  | succ fuel ih =>
+    intro st h
+    simp only [ruizLoop]
+    split
+    · exact ih _ (ruizBody_pos kind sqrtF cs hg scaleCost st h)
+    · exact h
+
+theorem pos_init (pre : Precond K n p m)
+    (hc : pre.c = 1) (hx : ∀ i : Fin n, pre.dx[i] = 1) (hy : ∀ i : Fin p, pre.dy[i] = 1) (hz : ∀ i : Fin m, pre.dz[i] = 1)
+    (hl : ∀ i : Fin n, pre.dlb[i] = 1) (hu : ∀ i : Fin n, pre.dub[i] = 1) : Pos pre :=
+  ⟨by rw [hc]; exact one_pos, fun i => by rw [hx]; exact one_pos, fun i => by rw [hy]; exact one_pos,
+   fun i => by rw [hz]; exact one_pos, fun i => by rw [hl]; exact one_pos, fun i => by rw [hu]; exact one_pos⟩
+
+theorem pos_transfer (pr : Precond K n p m) (h : Pos pr) (ci : K) (xi : Vec K n) (yi : Vec K p) (zi : Vec K m) (li ui : Vec K n)
+    (nl nu : Nat) :
+    Pos { pr with nlb := nl, nub := nu, cInv := ci, dxInv := xi, dyInv := yi, dzInv := zi, dlbInv := li, dubInv := ui } :=
+  ⟨h.c, h.dx, h.dy, h.dz, h.dlb, h.dub⟩
+
+/-- `scale_data` keeps every scaling strictly positive (fresh scaling: from 1 by positive factors; reuse: unchanged) -/
+theorem scaleData_pos (kind : PrecKind) (hk : kind ≠ .identity) (sqrtF : K → K) (cs : Consts K) (hg : PosConsts cs sqrtF)
+    (d0 : Data K n p m) (pre : Precond K n p m) (reuse scaleCost : Bool) (maxIter : Nat)
+    (h : reuse = true → Pos pre) :
+    Pos (pre.scaleData kind sqrtF cs d0 reuse scaleCost maxIter).2 := by
+  cases kind
+  case identity => exact absurd rfl hk
+  all_goals
+    cases reuse
+    · simp only [Precond.scaleData, Bool.not_false, if_true]
+      exact pos_transfer _ (ruizLoop_pos _ sqrtF cs hg scaleCost maxIter _
+        (pos_init _ rfl (fun i => vecConst_get 1 i) (fun i => vecConst_get 1 i) (fun i => vecConst_get 1 i)
+          (fun i => vecConst_get 1 i) (fun i => vecConst_get 1 i))) _ _ _ _ _ _ _ _
+    · simp only [Precond.scaleData, Bool.not_true, Bool.false_eq_true, if_false]
+      have hh := h rfl
+      exact ⟨hh.c, hh.dx, hh.dy, hh.dz, hh.dlb, hh.dub⟩
+
+/-- with positive scalings and coherent inverses the inverse scalings are positive too -/
+theorem inv_pos_of (pre : Precond K n p m) (hp : Pos pre) (hi : InvFull pre) :
+    0 < pre.cInv ∧ (∀ i : Fin n, 0 < pre.dxInv[i]) ∧ (∀ i : Fin p, 0 < pre.dyInv[i]) ∧ (∀ i : Fin m, 0 < pre.dzInv[i]) ∧
+    (∀ i : Fin n, 0 < pre.dlbInv[i]) ∧ (∀ i : Fin n, 0 < pre.dubInv[i]) := by
+  have key : ∀ a b : K, 0 < a → a * b = 1 → 0 < b := by
+    intro a b ha hab
+    by_contra hb
+    have hb' : b ≤ 0 := not_lt.mp hb
+    have : a * b ≤ 0 := mul_nonpos_of_nonneg_of_nonpos (le_of_lt ha) hb'
+    rw [hab] at this
+    exact absurd this (by norm_num)
+  exact ⟨key _ _ hp.c hi.c, fun i => key _ _ (hp.dx i) (hi.dx i), fun i => key _ _ (hp.dy i) (hi.dy i),
+    fun i => key _ _ (hp.dz i) (hi.dz i), fun i => key _ _ (hp.dlb i) (hi.dlb i), fun i => key _ _ (hp.dub i) (hi.dub i)⟩
+
 end positivity
 
 /-- non-vacuity of `GoodConsts`: the constants of the implementation with the identity as `sqrt` stand-in on ℚ -/
